@@ -1,0 +1,73 @@
+//go:build verif
+// +build verif
+
+package consensus
+
+import (
+	"github.com/hashicorp/raft"
+
+	"github.com/bbva/qed/balloon"
+	"github.com/bbva/qed/crypto/hashing"
+)
+
+// Observation points for the runtime monitors in /verif (build tag "verif" only).
+
+// VerifForceSnapshot asks raft to snapshot (and compact) now.
+func (n *RaftNode) VerifForceSnapshot() error {
+	return n.raft.Snapshot().Error()
+}
+
+// VerifLeaveLeadership transfers leadership to another voter.
+func (n *RaftNode) VerifLeaveLeadership() error {
+	return n.leaveLeadership()
+}
+
+// VerifFSMState returns the last applied (raft index, balloon version) as the FSM
+// recorded them. Only meaningful at quiescent points.
+func (n *RaftNode) VerifFSMState() (index, balloonVersion uint64) {
+	if n.state == nil {
+		return 0, 0
+	}
+	return n.state.Index, n.state.BalloonVersion
+}
+
+// VerifRaft exposes the underlying raft instance (stats, applied index, configuration).
+func (n *RaftNode) VerifRaft() *raft.Raft {
+	return n.raft
+}
+
+// VerifBalloon exposes the FSM's balloon.
+func (n *RaftNode) VerifBalloon() *balloon.Balloon {
+	return n.balloon
+}
+
+// VerifRaftLog is the persistent log + stable store that backs raft.
+type VerifRaftLog interface {
+	raft.LogStore
+	raft.StableStore
+	Close() error
+}
+
+// VerifNewRaftLog opens the rocksdb-backed raft log store on path.
+func VerifNewRaftLog(path string) (VerifRaftLog, error) {
+	return newRaftLog(path)
+}
+
+// VerifEncodeAdd encodes an add-events command exactly as AddBulk proposes it.
+func VerifEncodeAdd(digests []hashing.Digest) ([]byte, error) {
+	cmd := newCommand(addEventCommandType)
+	if err := cmd.encode(digests); err != nil {
+		return nil, err
+	}
+	return cmd.data, nil
+}
+
+// VerifDecodeAdd decodes an add-events command exactly as Apply does.
+func VerifDecodeAdd(data []byte) ([]hashing.Digest, error) {
+	cmd := newCommandFromRaft(data)
+	var digests []hashing.Digest
+	if err := cmd.decode(&digests); err != nil {
+		return nil, err
+	}
+	return digests, nil
+}
